@@ -144,6 +144,8 @@ func (e event) String() string {
 		return fmt.Sprintf("edit(%q, mtime+%v)", e.content, e.dt)
 	case "clock":
 		return "clock+3s"
+	case "delete":
+		return "delete-file"
 	}
 	return "reload"
 }
@@ -161,7 +163,7 @@ func tracking(c *evid.Ctx, depth int) {
 			events = append(events, event{"edit", ct, dt})
 		}
 	}
-	events = append(events, event{kind: "clock"}, event{kind: "tick"})
+	events = append(events, event{kind: "clock"}, event{kind: "tick"}, event{kind: "delete"})
 	hist := make([]int, depth)
 	var rec func(pos, l int)
 	run := func(h []int) {
@@ -175,6 +177,7 @@ func tracking(c *evid.Ctx, depth int) {
 		co.Add("obs", obs)
 		fc := conffile.VerifNew(conffile.WithHomePath(e.dir), conffile.WithConfigObserver(co))
 		content := "k1=init\n"
+		deleted := false
 		var desc []string
 		for _, ei := range h {
 			ev := events[ei]
@@ -188,6 +191,13 @@ func tracking(c *evid.Ctx, depth int) {
 				vtime.Advance(3 * time.Second)
 			case "tick":
 				fc.VerifReload()
+			case "delete":
+				os.Remove(e.path)
+				content = ""
+				deleted = true
+			}
+			if ev.kind == "edit" {
+				deleted = false
 			}
 		}
 		// the file stops changing: two more poll periods
@@ -196,6 +206,14 @@ func tracking(c *evid.Ctx, depth int) {
 			fc.VerifReload()
 		}
 		want := parseProps(content)
+		if deleted {
+			// the file is gone: the configuration falls back to its defaults; nothing of the old file may
+			// linger as if it were still configured
+			if got := fc.GetValue("k1"); got != "" {
+				c.Violation("C18:tracking:deleted-file-lingers", fmt.Sprintf("after %v and two further polls the file does not exist but the configuration still returns k1=%q", desc, got), map[string]interface{}{"engine": "E2", "history": desc})
+			}
+			return
+		}
 		for k, v := range want {
 			if got := fc.GetValue(k); got != strings.TrimSpace(v) {
 				c.Violation("C18:tracking:stale", fmt.Sprintf("after %v and two further polls the file says %s=%q but the configuration returns %q (file mtime %s: the content on disk was never loaded)", desc, k, v, got, mt.Format("15:04:05.000")),
